@@ -58,6 +58,9 @@ def _ev(e: str, **kw) -> dict:
     return d
 
 
+ENOENT = -10001         # marker: the executable does not exist (distinct from a tool killed by a signal, rc < 0)
+
+
 def run_case(case: dict, workdir: Path) -> list[dict]:
     """case: {upload, pio, pair, fault, platform, board, port, script (text)} -> list of events."""
     import Reduino
@@ -85,9 +88,9 @@ def run_case(case: dict, workdir: Path) -> list[dict]:
         k = kind(argv)
         rc = 0
         if k != "unknown" and not case["pio"]:
-            rc = -1                                     # ENOENT
+            rc = ENOENT
         elif k == fault:
-            rc = 1
+            rc = int(case.get("failrc", 1))             # exit status of the failing tool (negative: killed by a signal)
         where = "none" if cwd is None else ("project" if os.path.abspath(str(cwd)) == str(proj) else "other")
         for i, a in enumerate(argv[:-1]):              # pio run -d <dir>
             if a in ("-d", "--project-dir") and os.path.abspath(argv[i + 1]) == str(proj):
@@ -99,7 +102,7 @@ def run_case(case: dict, workdir: Path) -> list[dict]:
         def __init__(self, args, *a, cwd=None, **kw):
             argv = shlex.split(args) if isinstance(args, str) else [os.fspath(x) for x in args]
             rc = answer(argv, cwd)
-            if rc == -1:
+            if rc == ENOENT:
                 raise FileNotFoundError(2, "No such file or directory", argv[0])
             self.args, self.returncode, self.pid = args, rc, 4242
             self.stdin = self.stdout = self.stderr = None
@@ -126,7 +129,7 @@ def run_case(case: dict, workdir: Path) -> list[dict]:
 
     def fake_system(cmd):
         rc = answer(shlex.split(cmd), os.getcwd())
-        return (127 if rc == -1 else rc) << 8
+        return (127 if rc == ENOENT else (rc if rc >= 0 else 128 - rc)) << 8
 
     def fake_which(name, *a, **kw):
         base = os.path.basename(str(name))
